@@ -448,6 +448,20 @@ func famSchema(tr *Trace, scratch string, seed int64, tier string, repo, nfpmBin
 				"accepted_reader": rerr == nil, "accepted_file": ferr == nil, "accepted_cli": cerr == nil})
 		}
 	}
+	// every signer role either method knows, tried with both methods (debsign refuses "builder": no obligation then)
+	cross = true
+	for _, m := range []string{"debsign", "dpkg-sig"} {
+		d := base()
+		d["deb"] = map[string]any{"signature": map[string]any{"method": m, "type": "builder", "key_file": repo + "/internal/sign/testdata/privkey_unprotected.asc"}}
+		probe("deb.signature.method+type", m+"+builder", d, []string{"deb"})
+	}
+	// content types composed of the documented flag words in other combinations
+	for _, t := range []string{"config|missingok|noreplace", "config|noreplace|missingok", "noreplace", "missingok", "config|", "ghost|config", "file|config"} {
+		d := base()
+		d["contents"] = []any{map[string]any{"src": root0 + "/src/app.conf", "dst": "/etc/probe/item", "type": t}}
+		probe("contents[].type", t, d, allFormats)
+	}
+	cross = false
 	for _, m := range []string{"debsign", "dpkg-sig"} {
 		for _, ty := range []string{"origin", "maint", "archive"} {
 			d := base()
